@@ -22,7 +22,7 @@ def actChar : Act → String
   | .stealOn => "t" | .stealOff => "T"
 
 def showItem : LogItem → Option String
-  | .offer _ _ _ => none
+  | .offer _ _ _ _ => none
   | .call .key w i e r ev => some s!"K{w}.{i}/{e}{if r then "+" else "-"}:{ev.type},{ev.mod}"
   | .call .mouse w i e r ev => some s!"M{w}.{i}/{e}{if r then "+" else "-"}:{ev.type},{ev.button},{ev.line},{ev.col},{ev.mod}"
   | .destroyed w => some s!"D{w}"
